@@ -64,6 +64,10 @@ op("py-upd-S-no-noise", ["C05", "C07"], PY, r"np\.matmul\(H_t, np\.matmul\(covar
 op("py-upd-K-uses-S", ["C05", "C07"], PY, r"covariance\.data, np\.matmul\(H_t\.transpose\(\), S_inv\)", "covariance.data, np.matmul(H_t.transpose(), S_t)")
 op("py-upd-innovation-sign", ["C05", "C06", "C07"], PY, r"sensor_reading\.data - expected_reading\.data", "expected_reading.data - sensor_reading.data")
 op("py-innovation-cov-unsymmetrised", ["C09"], PY, r"self\.sensor_prediction_uncertainty\[sensor_key\] = S_t = \(\n\s*S_t \+ S_t\.transpose\(\)\n\s*\) / 2\.0", "self.sensor_prediction_uncertainty[sensor_key] = S_t")
+op("py-upd-relinearised-cov", ["C05", "C09", "C07"], PY, r"(        next_state = state\.data \+ np\.matmul\(K_t, innovation\)\n)",
+   r"\1        H_n = self.sensor_jacobian(sensor_key, self.State.from_data(next_state))\n        next_covariance = covariance.data - np.matmul(K_t, np.matmul(H_n, covariance.data))\n")
+op("tpl-upd-relinearised-cov", ["C09", "C07"], TPL_S, r"next_covariance\.data = Sigma\.data - kalman_gain \* H \* Sigma\.data;",
+   "next_covariance.data = Sigma.data - kalman_gain * ReadingT::SensorModel::jacobian(StateAndVariance{.state = next_state, .covariance = Sigma},\n{% if enable_calibration %}\n calibration,\n{% endif %}\n reading) * Sigma.data;")
 op("py-upd-cov-plus", ["C05", "C07"], PY, r"next_covariance = covariance\.data - np\.matmul\(", "next_covariance = covariance.data + np.matmul(")
 op("py-upd-H-not-transposed", ["C05"], PY, r"np\.matmul\(covariance\.data, H_t\.transpose\(\)\)\) \+ Q_t", "np.matmul(covariance.data, H_t)) + Q_t")
 op("py-Q-vector-class", ["C05"], PY, r"self\.ReadingCovariance = common\.named_covariance\(", "self.ReadingCovariance = common.named_vector(")
@@ -178,3 +182,25 @@ op("gate-sym-abs", ["C09"], PY, r"np\.allclose\(covariance, covariance\.T, atol=
 
 def operators(prop) -> List[dict]:
     return [o for o in OPS if prop in o["props"]]
+
+# ---------------------------------------------------------------- skipped readings (continue in the fold)
+op("rt-skip-past-readings", ["C11"], RT, r"(            assert isinstance\(sensor_reading, StampedReading\)\n)", r"\1            if sensor_reading.timestamp < self.current_time:\n                continue\n")
+op("hdr-skip-past-readings", ["C11"], HDR, r"(    for \(const auto& stampedReading : readings\) \{\n)(      _state = processUpdate\(stampedReading\.timestamp\);)", r"\1      if (stampedReading.timestamp < _state.currentTime) {\n        continue;\n      }\n\2")
+
+# ---------------------------------------------------------------- validation loops that do not see every element / weaker guards (C14)
+op("val-handler-break", ["C14"], COMMON, r"(            except AttributeError:\n                )continue", r"\1break")
+op("val-first-model-only", ["C14"], COMMON, r"for k2, model in model_set\.items\(\):", "for k2, model in list(model_set.items())[:1]:")
+op("val-skip-calibrated", ["C14"], COMMON, r"(        for k2, model in model_set\.items\(\):\n)", r"\1            if k2 in calibration_map:\n                continue\n")
+op("val-calibration-superset", ["C14"], COMMON, r"if set\(calibration_map\.keys\(\)\) != model_version:", "if not set(calibration_map.keys()) >= model_version:")
+op("val-calibration-verbose-only", ["C14"], COMMON, r"if set\(calibration_map\.keys\(\)\) != model_version:", "if verbose and set(calibration_map.keys()) != model_version:")
+op("val-calibration-issubset", ["C14"], COMMON, r"if set\(calibration_map\.keys\(\)\) != model_version:", "if not model_version.issubset(calibration_map.keys()):")
+
+# ---------------------------------------------------------------- adapter: persistent start / regularised NIS (C16)
+op("sk-start-from-last-state", ["C16"], PY, r"        state = self\.model_\.State\(\)\n(        covariance = self\.model_\.Covariance\(\)\n\n        assert_valid_covariance)", r"        state = getattr(self, '_last_state', None) or self.model_.State()\n\1")
+op("sk-nis-regularised", ["C16"], PY, r"(np\.linalg\.inv\(\n\s*self\.model_\.sensor_prediction_uncertainty\[key\])\n", r"\1 + np.eye(sensor_size) * 1e-12\n")
+
+# ---------------------------------------------------------------- k-loop counter (C10)
+op("hdr-loop-from-one", ["C10"], HDR, r"for \(size_t count = 0; count < expected_iterations; \+\+count\)", "for (size_t count = 1; count < expected_iterations; ++count)")
+op("rt-loop-from-one", ["C10"], RT, r"for _ in range\(expected_iterations\):", "for _ in range(1, expected_iterations):")
+op("hdr-span-narrowed-to-float", ["C10"], HDR, r"std::abs\(std::floor\(\(outputTime - _state\.currentTime\) / max_dt\)\)\);\n\n(    for \(size_t count = 0; count < expected_iterations; \+\+count\) \{\n      if constexpr \(!std::is_same_v<typename Impl::Tag::CalibrationT,\n                                    std::false_type>\) \{\n        state = _impl\.process_model\(max_dt, state, _calibration\);)",
+   r"std::abs(std::floor(static_cast<float>(outputTime - _state.currentTime) / max_dt)));\n\n\1")
